@@ -1,27 +1,60 @@
 package main
 
+// SDP part of C15: "… reported for the stream equal the values defined by the respective standard …
+// and SDP with such parameter sets still yields a usable stream".
+//
+// An SDP case is a first-class op line (replayable on its own):
+//
+//	c15 sdp <h264|h265|aac> <hex of the parameter set> v=<form seed> spec=<values of the standard | ->
+//
+// The driver answers with the model's decode of the parameter set (as for h264dec / hevcspsdec / ascdec); the
+// harness builds the SDP text of form `v` around the set (payload format parameters of RFC 6184 / 7798 / 3640 in
+// any order, further parameters of those RFCs around them, start-code prefixes, one or two media sections in
+// either order), runs sdp.ParseMetadata and media.NewStream on it and then feeds the stream's depacketizer.
+
 import (
 	"encoding/base64"
 	"encoding/hex"
 	"fmt"
+	"strconv"
 	"strings"
 
 	. "verifharness/hlib"
 
 	"github.com/cnotch/ipchub/av/codec"
-	"github.com/cnotch/ipchub/av/codec/h264"
 	"github.com/cnotch/ipchub/av/format/rtp"
 	"github.com/cnotch/ipchub/av/format/sdp"
 	"github.com/cnotch/ipchub/media"
 )
 
-// a known-good H.264 parameter-set pair (the one of media/stream_test.go)
+// known-good parameter sets sent in band (H.264: the pair of media/stream_test.go; H.265: an x265 stream), with the
+// size the standards derive for them (the Lean specification gives the same: see corpus/C15/sdp-good-sets.case)
 var goodSps, _ = base64.StdEncoding.DecodeString("Z2QAH6zZQFAFuhAAAAMAEAAAAwPI8YMZYA==")
 var goodPps, _ = base64.StdEncoding.DecodeString("aO+8sA==")
+var goodVps265, _ = base64.StdEncoding.DecodeString("QAEMAf//AWAAAAMAkAAAAwAAAwBdlZgJ")
+var goodSps265, _ = base64.StdEncoding.DecodeString("QgEBAWAAAAMAkAAAAwAAAwBdoAKAgC0WWVmkkyuAQAAA+kAAF3AC")
+var goodPps265, _ = base64.StdEncoding.DecodeString("RAHBcrRiQA==")
 
-type frameSink struct{ n int }
+const goodW, goodH = 1280, 720 // both
 
-func (f *frameSink) WriteFrame(fr *codec.Frame) error { f.n++; return nil }
+// the PPS that accompanies the case's SPS in an H.264 SDP
+var sdpPps264 = []byte{0x68, 0xce, 0x38, 0x80}
+
+// frameSink counts the coded slices handed on by a depacketizer
+type frameSink struct {
+	kind string
+	idr  int
+}
+
+func (f *frameSink) WriteFrame(fr *codec.Frame) error {
+	if len(fr.Payload) == 0 {
+		return nil
+	}
+	if (f.kind == "h264" && fr.Payload[0]&0x1f == 5) || (f.kind == "h265" && (fr.Payload[0]>>1)&0x3f == 19) {
+		f.idr++
+	}
+	return nil
+}
 
 func rtpOf(seq uint16, ts uint32, nal []byte) *rtp.Packet {
 	d := make([]byte, 12, 12+len(nal))
@@ -36,46 +69,22 @@ func rtpOf(seq uint16, ts uint32, nal []byte) *rtp.Packet {
 	return p
 }
 
-// usableAfterBadSps: "SDP with such parameter sets still yields a usable stream".  The SDP's
-// H.264 SPS was rejected by the parser; the sender then repeats VALID parameter sets in band
-// (as every camera does) followed by an IDR.  The stream is usable when the depacketizer takes
-// the valid sets: the metadata then shows the valid SPS's size and the IDR is handed on.
-func usableAfterBadSps(raw string) (ok bool, got string) {
-	defer func() {
-		if e := recover(); e != nil {
-			ok, got = false, "panic:"+trunc(fmt.Sprint(e), 60)
-		}
-	}()
-	var vm codec.VideoMeta
-	var am codec.AudioMeta
-	if err := sdp.ParseMetadata(raw, &vm, &am); err != nil {
-		return true, "sdp-rejected"
-	}
-	var want h264.RawSPS
-	if err := want.Decode(goodSps); err != nil {
-		return true, "good-sps-undecodable"
-	}
-	sink := &frameSink{}
-	dp := rtp.NewH264Depacketizer(&vm, sink)
-	idr := []byte{0x65, 0x88, 0x84, 0x00, 0x33, 0xff}
-	for r := 0; r < 2; r++ {
-		base := uint16(10 + 3*r)
-		dp.Depacketize(rtpOf(base, 9000*uint32(r+1), goodSps))
-		dp.Depacketize(rtpOf(base+1, 9000*uint32(r+1), goodPps))
-		dp.Depacketize(rtpOf(base+2, 9000*uint32(r+1), idr))
-	}
-	got = fmt.Sprintf("w=%d h=%d frames=%d spsIsValid=%v", vm.Width, vm.Height, sink.n, string(vm.Sps) == string(goodSps))
-	ok = vm.Width == want.Width() && vm.Height == want.Height() && sink.n >= 1 && string(vm.Sps) == string(goodSps)
-	return
-}
+// ---- the form of the SDP around the parameter set ----
 
-// ---- sdp.ParseMetadata and media.NewStream with the parameter sets of a case ----
-
-type sdpVariant struct {
-	codecName string // rtpmap name as written
-	startCode int    // 0 none, 3, 4: the base64 data carries a start code prefix
-	spaced    bool   // blanks after ';'
-	spropLast bool   // sprop parameter at the end of the fmtp line
+type sdpForm struct {
+	kind       string
+	pt         int
+	codecName  string
+	startCode  int    // 0 none, 3, 4: the base64 data carries a start code prefix
+	sep        string // between fmtp parameters
+	params     []string
+	extra      bool // further parameters of the RFC (not parameter sets) are present
+	moreSets   bool // H.264: a third parameter set after "sps,pps"
+	audio      bool // an AAC section accompanies the video section
+	audioFirst bool
+	rate, ch   int    // rtpmap of the audio section
+	cfg        []byte // AudioSpecificConfig of the audio section
+	upperHex   bool
 }
 
 func sc(n int) []byte {
@@ -88,58 +97,6 @@ func sc(n int) []byte {
 	return nil
 }
 
-func b64(b []byte, v sdpVariant) string {
-	return base64.StdEncoding.EncodeToString(append(sc(v.startCode), b...))
-}
-
-func buildSdp(kind string, ps []byte, v sdpVariant, audioCfg []byte, audioRate, audioCh int) string {
-	sep := ";"
-	if v.spaced {
-		sep = "; "
-	}
-	var fmtp string
-	switch kind {
-	case "h264":
-		sprop := "sprop-parameter-sets=" + b64(ps, v) + "," + b64([]byte{0x68, 0xce, 0x38, 0x80}, v)
-		if v.spropLast {
-			fmtp = "packetization-mode=1" + sep + "profile-level-id=64001F" + sep + sprop
-		} else {
-			fmtp = "packetization-mode=1" + sep + sprop + sep + "profile-level-id=64001F"
-		}
-	case "h265":
-		vps := "sprop-vps=" + b64([]byte{0x40, 0x01, 0x0c, 0x01}, v)
-		sps := "sprop-sps=" + b64(ps, v)
-		pps := "sprop-pps=" + b64([]byte{0x44, 0x01, 0xc0, 0xf7}, v)
-		parts := []string{vps, sps, pps}
-		if v.spropLast {
-			parts = []string{pps, sps, vps}
-		}
-		fmtp = strings.Join(parts, sep)
-	}
-	var b strings.Builder
-	b.WriteString("v=0\r\no=- 0 0 IN IP4 127.0.0.1\r\ns=x\r\nc=IN IP4 127.0.0.1\r\nt=0 0\r\n")
-	b.WriteString("m=video 0 RTP/AVP 96\r\nb=AS:2500\r\na=rtpmap:96 " + v.codecName + "/90000\r\na=fmtp:96 " + fmtp + "\r\na=control:streamid=0\r\n")
-	if audioCfg != nil {
-		b.WriteString(fmt.Sprintf("m=audio 0 RTP/AVP 97\r\nb=AS:160\r\na=rtpmap:97 MPEG4-GENERIC/%d/%d\r\n", audioRate, audioCh))
-		b.WriteString("a=fmtp:97 profile-level-id=1;mode=AAC-hbr;sizelength=13;indexlength=3;indexdeltalength=3;" + strings.TrimSpace(sep[1:]) + "config=" + hex.EncodeToString(audioCfg) + "\r\na=control:streamid=1\r\n")
-	}
-	return b.String()
-}
-
-type sdpOut struct {
-	outcome    string
-	vcodec     string
-	w, h       int
-	fixed      bool
-	fps        float64
-	clock      int
-	acodec     string
-	arate, ach int
-	streamOK   bool
-	streamW    int
-	spsKept    bool
-}
-
 func stripStartCode(b []byte) []byte {
 	if len(b) >= 4 && b[0] == 0 && b[1] == 0 && b[2] == 0 && b[3] == 1 {
 		return b[4:]
@@ -150,7 +107,123 @@ func stripStartCode(b []byte) []byte {
 	return b
 }
 
-func implSdp(raw string, ps []byte) (o sdpOut) {
+func shuffle(r *Rng, s []string) {
+	for i := len(s) - 1; i > 0; i-- {
+		j := r.Intn(i + 1)
+		s[i], s[j] = s[j], s[i]
+	}
+}
+
+// drawForm: everything about the SDP text except the parameter set itself, from the form seed
+func drawForm(kind string, seed uint64, ps []byte) sdpForm {
+	r := NewRng(seed)
+	f := sdpForm{kind: kind, pt: 96 + r.Intn(32), startCode: []int{0, 0, 3, 4}[r.Intn(4)], sep: []string{";", "; "}[r.Intn(2)]}
+	b64 := func(b []byte) string { return base64.StdEncoding.EncodeToString(append(sc(f.startCode), b...)) }
+	switch kind {
+	case "h264":
+		f.codecName = []string{"H264", "h264"}[r.Intn(2)]
+		sets := b64(ps) + "," + b64(sdpPps264)
+		if r.Chance(15) { // RFC 6184 8.1: any number of parameter sets
+			f.moreSets = true
+			sets += "," + b64([]byte{0x68, 0xee, 0x3c, 0x80})
+		}
+		f.params = []string{"packetization-mode=1", "profile-level-id=64001F", "sprop-parameter-sets=" + sets}
+		if r.Chance(40) {
+			f.extra = true
+			more := []string{"level-asymmetry-allowed=1", "max-mbps=245760", "max-fs=8192", "sprop-interleaving-depth=0", "sprop-deint-buf-req=0", "sprop-max-don-diff=0"}
+			for n := 1 + r.Intn(2); n > 0; n-- {
+				f.params = append(f.params, more[r.Intn(len(more))])
+			}
+		}
+		shuffle(r, f.params)
+	case "h265":
+		f.codecName = []string{"H265", "h265", "HEVC", "hevc"}[r.Intn(4)]
+		f.params = []string{"sprop-vps=" + b64(goodVps265), "sprop-sps=" + b64(ps), "sprop-pps=" + b64(goodPps265)}
+		shuffle(r, f.params)
+		if r.Chance(40) { // RFC 7798 7.1: parameters that do not carry parameter sets, before and/or after
+			f.extra = true
+			more := []string{"profile-space=0", "profile-id=1", "tier-flag=0", "level-id=93", "interop-constraints=B00000000000", "tx-mode=SRST", "sprop-max-don-diff=0", "sprop-depack-buf-nalus=0"}
+			for n := 1 + r.Intn(3); n > 0; n-- {
+				p := more[r.Intn(len(more))]
+				if r.Bool() {
+					f.params = append([]string{p}, f.params...)
+				} else {
+					f.params = append(f.params, p)
+				}
+			}
+		}
+	case "aac":
+		f.codecName = "MPEG4-GENERIC"
+		f.cfg = ps
+		f.audio = true
+		f.upperHex = r.Bool()
+	}
+	if kind != "aac" {
+		f.audio = r.Chance(60)
+		f.cfg = [][]byte{{0x12, 0x10}, {0x11, 0x90}, {0x2b, 0x8a, 0x08, 0x00}}[r.Intn(3)]
+	}
+	f.audioFirst = r.Bool()
+	f.rate = []int{44100, 48000, 8000, 22050, 96000, 12000}[r.Intn(6)]
+	f.ch = 1 + r.Intn(2)
+	return f
+}
+
+func (f *sdpForm) text(video bool) string {
+	var b strings.Builder
+	b.WriteString("v=0\r\no=- 0 0 IN IP4 127.0.0.1\r\ns=x\r\nc=IN IP4 127.0.0.1\r\nt=0 0\r\n")
+	vs := fmt.Sprintf("m=video 0 RTP/AVP %d\r\nb=AS:2500\r\na=rtpmap:%d %s/90000\r\na=fmtp:%d %s\r\na=control:streamid=0\r\n", f.pt, f.pt, f.codecName, f.pt, strings.Join(f.params, f.sep))
+	apt := 97
+	if apt == f.pt {
+		apt = 98
+	}
+	cfg := hex.EncodeToString(f.cfg)
+	if f.upperHex {
+		cfg = strings.ToUpper(cfg)
+	}
+	ap := []string{"profile-level-id=1", "mode=AAC-hbr", "sizelength=13", "indexlength=3", "indexdeltalength=3", "config=" + cfg}
+	if f.upperHex { // config need not be the last parameter
+		ap[5], ap[1] = ap[1], ap[5]
+	}
+	as := fmt.Sprintf("m=audio 0 RTP/AVP %d\r\nb=AS:160\r\na=rtpmap:%d MPEG4-GENERIC/%d/%d\r\na=fmtp:%d %s\r\na=control:streamid=1\r\n", apt, apt, f.rate, f.ch, apt, strings.Join(ap, f.sep))
+	switch {
+	case !video:
+		b.WriteString(as)
+	case !f.audio:
+		b.WriteString(vs)
+	case f.audioFirst:
+		b.WriteString(as + vs)
+	default:
+		b.WriteString(vs + as)
+	}
+	return b.String()
+}
+
+// ---- the implementation on one SDP ----
+
+type sdpOut struct {
+	outcome      string
+	vcodec       string
+	w, h         int
+	fixed        bool
+	fps          float64
+	clock        int
+	acodec       string
+	arate, ach   int
+	cfgKept      bool
+	spsKept      bool
+	ppsSet       bool
+	streamOK     bool
+	streamW      int
+	usable       string // "" = usable; otherwise what is wrong after the in-band parameter sets and an IDR
+	usableDetail string
+	idr          int    // state after the in-band sets and the IDR
+	which        string // own | inband | other: whose SPS is stored
+	uw, uh       int
+	ufixed       bool
+	ufps         float64
+}
+
+func implSdp(kind, raw string, ps, cfg []byte, psDims string) (o sdpOut) {
 	defer func() {
 		if e := recover(); e != nil {
 			o.outcome = "escaped-panic:" + trunc(fmt.Sprint(e), 60)
@@ -166,66 +239,214 @@ func implSdp(raw string, ps []byte) (o sdpOut) {
 	o.vcodec, o.w, o.h, o.fixed, o.fps, o.clock = vm.Codec, vm.Width, vm.Height, vm.FixedFrameRate, vm.FrameRate, vm.ClockRate
 	o.acodec, o.arate, o.ach = am.Codec, am.SampleRate, am.Channels
 	o.spsKept = string(vm.Sps) == string(ps)
+	o.ppsSet = len(vm.Pps) > 0
+	o.cfgKept = string(am.Sps) == string(cfg)
 	s := media.NewStream("/c15/probe", raw)
 	if s != nil {
-		o.streamOK = s.Video.Codec == vm.Codec && s.Path() != ""
+		o.streamOK = s.Video.Codec == vm.Codec && s.Audio.Codec == am.Codec && s.Path() != "" && s.Audio.SampleRate == am.SampleRate && s.Audio.Channels == am.Channels
 		o.streamW = s.Video.Width
 		s.Close()
+	}
+	if kind == "aac" {
+		return
+	}
+	// "still yields a usable stream": the sender repeats valid parameter sets in band (as every camera does) followed by an
+	// IDR.  Usable = the IDR is handed on and the metadata is that of a parameter set the parser accepts: the SDP's
+	// own set when it is valid and was kept, otherwise the valid in-band one.
+	sink := &frameSink{kind: kind}
+	var dp rtp.Depacketizer
+	var sets [][]byte
+	if kind == "h264" {
+		dp = rtp.NewH264Depacketizer(&vm, sink)
+		sets = [][]byte{goodSps, goodPps, {0x65, 0x88, 0x84, 0x00, 0x33, 0xff}}
+	} else {
+		dp = rtp.NewH265Depacketizer(&vm, sink)
+		sets = [][]byte{goodVps265, goodSps265, goodPps265, {0x26, 0x01, 0xaf, 0x08, 0x42, 0x7f}}
+	}
+	seq := uint16(10)
+	for _, n := range sets {
+		dp.Depacketize(rtpOf(seq, 9000, append([]byte{}, n...)))
+		seq++
+	}
+	good := sets[0]
+	if kind == "h265" {
+		good = sets[1]
+	}
+	which := "other"
+	switch {
+	case string(vm.Sps) == string(ps):
+		which = "own"
+	case string(vm.Sps) == string(good):
+		which = "inband"
+	}
+	o.idr, o.which, o.uw, o.uh, o.ufixed, o.ufps = sink.idr, which, vm.Width, vm.Height, vm.FixedFrameRate, vm.FrameRate
+	byGood := string(vm.Sps) == string(good) && vm.Width == goodW && vm.Height == goodH
+	byOwn := psDims != "" && string(vm.Sps) == string(ps) && dimsEq(psDims, vm.Width, vm.Height, vm.FixedFrameRate, vm.FrameRate)
+	o.usableDetail = fmt.Sprintf("after in-band sets: w=%d h=%d idr-frames=%d sps-is=%s", vm.Width, vm.Height, sink.idr, which)
+	switch {
+	case sink.idr < 1:
+		o.usable = "no-idr-handed-on"
+	case !byGood && !byOwn:
+		o.usable = "metadata-of-no-accepted-parameter-set"
 	}
 	return
 }
 
-// checkSdp: the parameter set `ps` of a decoder case, put into an SDP; `dims` is the model's
-// "w,h,fixed,fps" when its decode succeeded ("" otherwise); wf: the set came from the specification's encoder
-func checkSdp(c *Ctx, k caseT, kind string, ps []byte, dims string, specDims string) {
-	if len(ps) == 0 {
+// evalSdp: one "c15 sdp" case against the model's decode of its parameter set
+func evalSdp(c *Ctx, k caseT, out string) {
+	f := strings.Fields(k.line)
+	if len(f) < 5 {
+		c.Find(Finding{Kind: "corr", Class: "unknown-op", Case: k.line, Impl: "?", Model: out})
 		return
 	}
-	r := c.Rng
-	names := map[string][]string{"h264": {"H264", "h264"}, "h265": {"H265", "h265", "HEVC", "hevc"}}[kind]
-	v := sdpVariant{codecName: names[r.Intn(len(names))], startCode: []int{0, 0, 3, 4}[r.Intn(4)], spaced: r.Bool(), spropLast: r.Bool()}
-	rate := []int{44100, 48000, 8000, 22050}[r.Intn(4)]
-	ch := 1 + r.Intn(2)
-	// a set that still starts with a start code after the removal done by ParseMetadata is decoded differently through
-	// SDP (two removals) than directly (one): not comparable with the direct decode, skipped
-	if once := stripStartCode(append(sc(v.startCode), ps...)); len(stripStartCode(once)) != len(once) || len(stripStartCode(ps)) != len(ps) && v.startCode != 0 {
+	kind, ps := f[2], Unhx(f[3])
+	kv := KV(strings.Join(f[4:], " "))
+	seed, _ := strconv.ParseUint(kv["v"], 10, 64)
+	spec := kv["spec"]
+	if spec == "-" {
+		spec = ""
+	}
+	m := KV(out)
+	_, rejected := m["err"]
+	form := drawForm(kind, seed, ps)
+	own := stripStartCode(append(sc(form.startCode), ps...)) // what one removal of the start code leaves
+	if kind != "aac" && (len(stripStartCode(own)) != len(own) || (len(stripStartCode(ps)) != len(ps) && form.startCode != 0)) {
+		// a set that still starts with a start code after the removal done by ParseMetadata is decoded differently through
+		// SDP (two removals) than directly (one): not comparable with the direct decode
 		c.Count("sdp:skipped-double-startcode")
 		return
 	}
-	raw := buildSdp(kind, ps, v, []byte{0x12, 0x10}, rate, ch)
-	o := implSdp(raw, stripStartCode(append(sc(v.startCode), ps...)))
+	dims := "" // the model's values of the set, "" when it rejects the set
+	if !rejected {
+		dims = m["dims"]
+	}
+	if kind == "aac" {
+		// RFC 3640 4.1: the rtpmap announces the sampling rate and the channels of the stream — of THIS configuration when
+		// the case carries the standard's values
+		if p := strings.Split(spec, ","); len(p) == 2 {
+			ch, _ := strconv.Atoi(p[0])
+			rate, _ := strconv.Atoi(p[1])
+			if ch >= 1 && rate >= 1 {
+				form.ch, form.rate = ch, rate
+			}
+		}
+	}
+	raw := form.text(kind != "aac")
+	cfg := form.cfg
+	if kind != "aac" && !form.audio {
+		cfg = nil
+	}
+	gr, ok := guard(c, k, "sdp-parse", func() interface{} { return implSdp(kind, raw, own, cfg, dims) })
+	if !ok {
+		return
+	}
+	o := gr.(sdpOut)
+	c.Eval(k.line, o.outcome == "ok")
 	c.Count("sdp:" + kind)
-	c.Count(fmt.Sprintf("sdp:startcode-%d", v.startCode))
+	formClass := "sdp-" + kind
+	switch {
+	case form.moreSets:
+		formClass += "-more-than-two-sets"
+	case form.extra:
+		formClass += "-with-other-fmtp-parameters"
+	}
+	c.Count("sdp:form-" + formClass)
+	if rejected {
+		c.Count("sdp:" + kind + "-set-rejected-by-the-parser")
+	}
+	cs := k.line + "\n# sdp: " + strings.ReplaceAll(raw, "\r\n", "\\r\\n")
+	if strings.HasPrefix(o.outcome, "escaped-panic") {
+		c.Find(Finding{Kind: "oracle", Class: "sdp-panic-escapes", Case: cs, Impl: o.outcome, Spec: "a stream", Detail: "ParseMetadata/NewStream/depacketizer panicked on an SDP carrying this parameter set"})
+		return
+	}
+	got := fmt.Sprintf("%s codec=%s/%s clock=%d audio=%d/%d cfg-kept=%v sps-kept=%v pps-set=%v stream=%v/%d dims=%d,%d,%v,%v", o.outcome, o.vcodec, o.acodec, o.clock, o.arate, o.ach,
+		o.cfgKept, o.spsKept, o.ppsSet, o.streamOK, o.streamW, o.w, o.h, o.fixed, o.fps)
+	if kind == "aac" {
+		want := fmt.Sprintf("ok codec=AAC audio=%d/%d cfg-kept=true", form.rate, form.ch)
+		if !(o.outcome == "ok" && o.acodec == "AAC" && o.arate == form.rate && o.ach == form.ch && o.cfgKept && o.streamOK) {
+			kindF := "corr"
+			if spec != "" && k.wf {
+				kindF = "oracle" // a valid configuration in a well-formed SDP: the stream reports the standard's rate and channels
+			}
+			c.Find(Finding{Kind: kindF, Class: formClass, Case: cs, Impl: got, Model: want, Spec: want, Detail: "audio metadata after sdp.ParseMetadata / media.NewStream"})
+		}
+		return
+	}
 	wantCodec := map[string]string{"h264": "H264", "h265": "H265"}[kind]
 	want := "0,0,0,0"
 	if dims != "" {
 		want = dims
 	}
-	got := fmt.Sprintf("%s codec=%s/%s clock=%d audio=%d/%d kept=%v stream=%v/%d", o.outcome, o.vcodec, o.acodec, o.clock, o.arate, o.ach, o.spsKept, o.streamOK, o.streamW)
-	okMeta := o.outcome == "ok" && o.vcodec == wantCodec && o.acodec == "AAC" && o.clock == 90000 && o.arate == rate && o.ach == ch && o.spsKept && o.streamOK
+	audioOK := !form.audio && o.acodec == "" || form.audio && o.acodec == "AAC" && o.arate == form.rate && o.ach == form.ch && o.cfgKept
+	okMeta := o.outcome == "ok" && o.vcodec == wantCodec && o.clock == 90000 && audioOK && o.spsKept && o.ppsSet && o.streamOK
 	dimsOK := dimsEq(want, o.w, o.h, o.fixed, o.fps) && fmt.Sprint(o.streamW) == strings.Split(want, ",")[0]
-	cs := k.line + "\n# sdp: " + strings.ReplaceAll(raw, "\r\n", "\\r\\n")
-	if strings.HasPrefix(o.outcome, "escaped-panic") {
-		c.Find(Finding{Kind: "oracle", Class: "sdp-panic-escapes", Case: cs, Impl: got, Spec: "a stream", Detail: "ParseMetadata/NewStream panicked on an SDP carrying this parameter set"})
-		return
-	}
-	if kind == "h264" && dims == "" && o.outcome == "ok" {
-		// the parser rejected this SPS: the stream must stay repairable by valid in-band sets
-		c.Count("sdp:usable-after-rejected-sps-probe")
-		if ok, how := usableAfterBadSps(raw); !ok {
-			c.Find(Finding{Kind: "oracle", Class: "sdp-rejected-sps-makes-stream-unusable", Case: cs, Impl: how,
-				Spec:   "valid in-band SPS/PPS are taken: metadata of the valid SPS, IDR handed on",
-				Detail: "SDP carrying a parameter set the parser rejects, followed by valid in-band parameter sets and an IDR"})
+	specOK := spec == "" || !k.wf || dimsEqSpec(spec, o.w, o.h, o.fixed, o.fps)
+	if !okMeta || !dimsOK || !specOK {
+		kindF := "corr"
+		if spec != "" && k.wf {
+			kindF = "oracle" // a valid parameter set in a well-formed SDP must yield the standard's values
+			want = spec
 		}
-	}
-	if !okMeta || !dimsOK {
-		kindF, class := "corr", "sdp-"+kind
-		if specDims != "" && k.wf {
-			kindF, class = "oracle", "sdp-"+kind // a valid parameter set in a well-formed SDP must yield the standard's values
-			want = specDims
-		}
-		c.Find(Finding{Kind: kindF, Class: class, Case: cs, Impl: fmt.Sprintf("%s dims=%d,%d,%v,%v", got, o.w, o.h, o.fixed, o.fps),
-			Model: "ok codec=" + wantCodec + "/AAC dims=" + want, Spec: "ok codec=" + wantCodec + "/AAC dims=" + want,
+		c.Find(Finding{Kind: kindF, Class: formClass, Case: cs, Impl: got,
+			Model: "ok codec=" + wantCodec + " sps-kept=true pps-set=true dims=" + want, Spec: "ok codec=" + wantCodec + " dims=" + want,
 			Detail: "stream metadata after sdp.ParseMetadata / media.NewStream"})
 	}
+	if o.usable != "" && o.outcome == "ok" {
+		class := formClass + "-stream-unusable"
+		if rejected {
+			class = "sdp-rejected-sps-makes-stream-unusable"
+			if kind == "h265" {
+				class = "sdp-rejected-hevc-sps-makes-stream-unusable"
+			}
+		}
+		c.Find(Finding{Kind: "oracle", Class: class, Case: cs, Impl: o.usable + ": " + o.usableDetail,
+			Spec:   "the IDR is handed on; metadata = that of the SDP's parameter set if the parser accepts it, else of the valid in-band set",
+			Detail: "SDP carrying this parameter set, followed by valid in-band parameter sets and an IDR"})
+	}
+	// the same scenario in the model (Model/MetaReady.lean: c15_total_usable_* are theorems about it)
+	if u := strings.Split(m["usable"], ","); len(u) == 7 && o.outcome == "ok" {
+		same := u[0] == B01(o.idr >= 1) && u[2] == o.which && u[3] == strconv.Itoa(o.uw) && u[4] == strconv.Itoa(o.uh) && u[5] == B01(o.ufixed) && sameF(fpsOf(u[6]), o.ufps)
+		if !same {
+			c.Find(Finding{Kind: "corr", Class: "sdp-" + kind + "-state-after-in-band-sets", Case: cs,
+				Impl: fmt.Sprintf("%s,%s,%d,%d,%s,%v", B01(o.idr >= 1), o.which, o.uw, o.uh, B01(o.ufixed), o.ufps), Model: m["usable"],
+				Detail: "slice handed on, whose SPS is stored, Width, Height, FixedFrameRate, FrameRate after the SDP's sets and one in-band repetition"})
+		}
+	} else if o.outcome == "ok" {
+		c.Find(Finding{Kind: "corr", Class: "unknown-op", Case: cs, Impl: "?", Model: out})
+	}
+}
+
+// sdpCaseOf derives the SDP case of a decoder case (a sample of them)
+func sdpCaseOf(c *Ctx, k caseT, kind string, ps []byte, spec string, add func(caseT)) {
+	if len(ps) == 0 || c.Rng.Intn(4) != 0 {
+		return
+	}
+	if spec == "" || !k.wf {
+		spec = "-"
+	}
+	add(caseT{line: sdpLine(kind, ps, c.Rng.U64()%1000000, spec), kind: "sdp", wf: k.wf && spec != "-", class: k.class})
+}
+
+// sdpLine: the op line of an SDP case; the other sets of the SDP, the start-code prefix and the in-band sets are spelled
+// out for the driver (they are determined by the kind and the form seed)
+func sdpLine(kind string, ps []byte, seed uint64, spec string) string {
+	line := fmt.Sprintf("c15 sdp %s %s v=%d spec=%s", kind, Hx(ps), seed, spec)
+	form := drawForm(kind, seed, ps)
+	switch kind {
+	case "h264":
+		line += fmt.Sprintf(" sc=%d sd=-.%s ib=-.%s.%s", form.startCode, Hx(sdpPps264), Hx(goodSps), Hx(goodPps))
+	case "h265":
+		line += fmt.Sprintf(" sc=%d sd=%s.%s ib=%s.%s.%s", form.startCode, Hx(goodVps265), Hx(goodPps265), Hx(goodVps265), Hx(goodSps265), Hx(goodPps265))
+	}
+	return line
+}
+
+// the standard's values with "*" for a component that is not compared
+func dimsEqSpec(spec string, w, h int, fixed bool, fps float64) bool {
+	p := strings.Split(spec, ",")
+	if len(p) != 4 {
+		return false
+	}
+	return (p[0] == "*" || p[0] == strconv.Itoa(w)) && (p[1] == "*" || p[1] == strconv.Itoa(h)) &&
+		(p[2] == "*" || p[2] == B01(fixed)) && (p[3] == "*" || sameF(fpsOf(p[3]), fps))
 }
